@@ -554,7 +554,7 @@ func c18Compute(cfg *c18Cfg, rd *c18Round) *c18Ref {
 		}
 		// documented reading of NumberOfNodes ("sum of nodes with low node utilization, low prod utilization, and
 		// both"); a prod threshold that is not configured is 100 % of the allocatable (deviation mode: likewise)
-		prodLow := !nd.Unsched
+		prodLow, overStrict := !nd.Unsched, false
 		for r := 0; r < 2; r++ {
 			lim := nd.Alloc[r]
 			if ref.cfgd[c18TierProd][r] {
@@ -564,7 +564,15 @@ func c18Compute(cfg *c18Cfg, rd *c18Round) *c18Ref {
 				prodLow = false
 			}
 		}
-		ref.countedLow[i] = ref.under[c18TierNode][i] || prodLow
+		// ... and a node that is above a high threshold beyond any rounding doubt is not an underused node
+		for t := 0; t < 2; t++ {
+			for r := 0; r < 2; r++ {
+				if cfg.tierConfigured(t) && ref.cfgd[t][r] && ref.use[t][i][r] > ref.high[t][i][r].hi {
+					overStrict = true
+				}
+			}
+		}
+		ref.countedLow[i] = (ref.under[c18TierNode][i] || prodLow) && !overStrict
 	}
 	return ref
 }
